@@ -756,11 +756,28 @@ func runC17Workload(cfg *hv.RunCfg) error {
 				}
 			}
 		}
+		// content extraction with shared schemas, on fresh and remaining bodies
+		for _, base := range contentBases {
+			rn.contentRound(base, rn.randomRound())
+		}
+		// one expanded body (one context) shared by all goroutines, splat in for_each
+		for i := 0; i < 2; i++ {
+			rc := rn.randomRound()
+			if rc.G < 6 {
+				rc.G = 6
+			}
+			rn.sharedForEachRound(rc)
+		}
 		// generated rounds
 		for i := 0; i < cfg.N; i++ {
 			var it *item
 			var feat map[string]int
-			switch k := rn.r.Intn(20); {
+			k := rn.r.Intn(23)
+			if k >= 20 {
+				rn.contentRound(contentBases[rn.r.Intn(len(contentBases))], rn.randomRound())
+				continue
+			}
+			switch {
 			case k < 9:
 				var s string
 				s, feat = genExpr(rn.r)
